@@ -13,6 +13,7 @@ mod props_fw;
 mod props_more;
 mod props_ref;
 mod props_sim;
+mod props_simtimers;
 mod simsut;
 mod refmodel;
 mod sup;
@@ -34,6 +35,9 @@ fn engine_for(prop: &str) -> Option<Box<dyn Engine>> {
         "C05" => Box::new(FwEngine(props_ref::C05)),
         "C14" => Box::new(props_sim::SimEngine(props_sim::C14)),
         "C15" => Box::new(props_sim::SimEngine(props_sim::C15)),
+        "C16" => Box::new(props_sim::SimEngine(props_simtimers::C16)),
+        "C17" => Box::new(props_sim::SimEngine(props_simtimers::C17)),
+        "C18" => Box::new(props_sim::SimEngine(props_simtimers::C18)),
         "C19" => Box::new(props_sim::SimEngine(props_sim::C19)),
         _ => return None,
     })
@@ -71,6 +75,10 @@ fn main() {
                 step.parse().expect("step"),
                 end.parse().expect("end"),
             );
+            0
+        }
+        ["--dump", file] => {
+            props_sim::dump(file);
             0
         }
         ["--replay", file] => sup::replay_file(file, false, &engine_for),
